@@ -227,16 +227,53 @@ theorem C04_visited_return_witness :
   refine ⟨by decide, by decide, by decide, ?_, by decide⟩
   exact .trans (b := "v2") (by decide) (.step (by decide))
 
+/-! ## imports (USE / REFERENCE): the verdict does not depend on the order in which pass 2 visits the schemas -/
+
+/-- what a schema hands out under a name (`SCOPEfind_for_rename`) is the same whichever schemas pass 2 has already
+    been through — for every file whose USE clauses do not bind one visible name twice, every fuel.  Needs the
+    regenerated `renameUselistFallback` (the on-demand scan of the exporting schema's `uselist`): without it the
+    answer depends on hash order (next theorem). -/
+theorem C04_import_order_independent (f : File) (hnd : NoDupAlias f) (p₁ p₂ : String → Bool) (fuel : Nat) :
+    exportOf f ResolveGen.renameUselistFallback p₁ fuel = exportOf f ResolveGen.renameUselistFallback p₂ fuel := by
+  have hv : ResolveGen.renameUselistFallback = true := by decide
+  rw [hv]
+  exact exportOf_order_independent f hnd p₁ p₂ fuel
+
+/-- hence the REF_NONEXISTENT / duplicate-alias diagnostics of pass 2 are the same for every visiting order -/
+theorem C04_pass2_order_independent (f : File) (hnd : NoDupAlias f) (p₁ p₂ : String → Bool) (items : List (String × Item)) :
+    resolvedItems f ResolveGen.renameUselistFallback p₁ items = resolvedItems f ResolveGen.renameUselistFallback p₂ items := by
+  simp only [resolvedItems, C04_import_order_independent f hnd p₁ p₂]
+
+/-- a valid chained import, `design: USE FROM catalogue (point)`, `catalogue: USE FROM geometry (point)`, `geometry`
+    declares `point` -/
+def chainFile : File :=
+  ⟨"c.exp",
+   [⟨"design", 0, [], [⟨.use, "catalogue", 1, some [⟨"point", none, 1⟩]⟩]⟩,
+    ⟨"catalogue", 5, [], [⟨.use, "geometry", 6, some [⟨"point", none, 6⟩]⟩]⟩,
+    ⟨"geometry", 9, [.entity ⟨"point", 10, [], [], [], []⟩], []⟩], []⟩
+
+/-- without the fall-back scan the chained import resolves only when the re-exporting schema was visited first -/
+theorem C04_import_order_witness :
+    exportOf chainFile false (fun _ => false) 5 "catalogue" "point" = none ∧
+    exportOf chainFile false (fun T => T = "catalogue") 5 "catalogue" "point" = some ⟨"geometry", "point", .entity⟩ ∧
+    exportOf chainFile true (fun _ => false) 5 "catalogue" "point" = some ⟨"geometry", "point", .entity⟩ := by
+  decide
+
+example : NoDupAlias chainFile := by
+  intro s hs
+  simp [chainFile] at hs
+  rcases hs with rfl | rfl | rfl <;> decide
+
 /-! ## fault classes of the declaration-level model: an ERROR is produced -/
 
 theorem hasError_of_mem {ds : List Diag} {d : Diag} (h : d ∈ ds) (he : isErrorCode d.code = true) : hasError ds = true := by
   simp only [hasError, List.any_eq_true]; exact ⟨d, h, he⟩
 
-/-- undefined supertype -/
-theorem C04_reject_undefined_supertype (f : File) (e : Entity) (n : String) (l : Nat)
-    (he : Decl.entity e ∈ f.schema.decls) (hs : (n, l) ∈ e.supers) (hn : isEntity f.schema n = false) :
-    hasError (pass3 f) = true := by
-  apply hasError_of_mem (d := mk f.path LibErrors.UNKNOWN_SUPERTYPE l [sArg n, sArg e.name])
+/-- undefined supertype (the name denotes no entity, neither in the schema nor through an interface clause) -/
+theorem C04_reject_undefined_supertype (path : String) (env : Env) (s : Schema) (e : Entity) (n : String) (l : Nat)
+    (he : Decl.entity e ∈ s.decls) (hs : (n, l) ∈ e.supers) (hn : isEnt env s n = false) :
+    hasError (pass3 path env s) = true := by
+  apply hasError_of_mem (d := mk path LibErrors.UNKNOWN_SUPERTYPE l [sArg n, sArg e.name])
   · simp only [pass3, List.mem_flatMap]
     refine ⟨.entity e, he, ?_⟩
     simp only [List.mem_append, List.mem_filterMap]
@@ -245,15 +282,34 @@ theorem C04_reject_undefined_supertype (f : File) (e : Entity) (n : String) (l :
     decide
 
 /-- undefined subtype -/
-theorem C04_reject_undefined_subtype (f : File) (e : Entity) (n : String)
-    (he : Decl.entity e ∈ f.schema.decls) (hs : n ∈ e.subs) (hn : isEntity f.schema n = false) :
-    hasError (pass3 f) = true := by
-  apply hasError_of_mem (d := mk f.path LibErrors.UNKNOWN_SUBTYPE e.line [sArg n, sArg e.name])
+theorem C04_reject_undefined_subtype (path : String) (env : Env) (s : Schema) (e : Entity) (n : String)
+    (he : Decl.entity e ∈ s.decls) (hs : n ∈ e.subs) (hn : isEnt env s n = false) :
+    hasError (pass3 path env s) = true := by
+  apply hasError_of_mem (d := mk path LibErrors.UNKNOWN_SUBTYPE e.line [sArg n, sArg e.name])
   · simp only [pass3, List.mem_flatMap]
     refine ⟨.entity e, he, ?_⟩
     simp only [List.mem_append, List.mem_filterMap]
     exact Or.inr ⟨n, hs, by simp [hn]⟩
   · show isErrorCode LibErrors.UNKNOWN_SUBTYPE = true
+    decide
+
+/-- undefined schema in an interface clause -/
+theorem C04_reject_undefined_schema (f : File) (s : Schema) (i : Iface)
+    (hs : s ∈ f.schemas) (hi : i ∈ s.ifaces) (hn : findSchema f i.schema = none) (hne : i.items ≠ some []) :
+    hasError (resolveDiags f).diags = true := by
+  apply hasError_of_mem (d := mk f.path LibErrors.UNDEFINED_SCHEMA i.line [sArg i.schema])
+  · simp only [resolveDiags, List.mem_append, List.mem_flatMap]
+    refine Or.inl (Or.inl (Or.inl (Or.inl ⟨s, hs, ?_⟩)))
+    simp only [pass1, List.mem_flatMap]
+    refine ⟨i, hi, ?_⟩
+    simp only [hn, Option.isSome_none, Bool.false_eq_true, if_false]
+    cases hit : i.items with
+    | none => simp
+    | some its =>
+      cases its with
+      | nil => exact absurd hit hne
+      | cons x xs => simp
+  · show isErrorCode LibErrors.UNDEFINED_SCHEMA = true
     decide
 
 /-- a syntax error ends the run with an ERROR-severity (EXIT) diagnostic -/
